@@ -14,6 +14,8 @@ CONSTANTS
   OwnerClasses = {"root", "user", "big", "mixed"}
   MtimeClasses = {"t1970", "t2001", "t2020", "t2038"}
   XattrClasses = {"none", "small", "two", "blk", "near", "ea"}
+  LinkKinds = {"reg", "lnk", "chr", "blk", "fifo", "sock"}
+  PopLinkTypes = {"reg", "lnk", "chr", "blk", "fifo", "sock"}
   DevModeMask777 = FALSE
   DevHardlinkByInoOnly = FALSE
   DevHoleAsZeros = FALSE
